@@ -151,7 +151,7 @@ namespace c17
     confirm_in_child(attempt);
   }
 
-  static const char* const real_kinds[] = { "mat1-laplace-q1", "mat1-mass-q2", "mat2-q2xq1", "force-q1", "linfunc-q2", "int-analytic", "int-discrete-q1", "int-error-q2", "int-cellerror-q1" };
+  static const char* const real_kinds[] = { "mat1-laplace-q1", "mat1-mass-q2", "mat2-q2xq1", "force-q1", "linfunc-q2", "int-analytic", "int-discrete-q1", "int-error-q2", "int-cellerror-q1", "int-discrete-blocked-q1" };
 
   inline void real_case(Tape& t, Ctx& c, const RealOpts& o)
   {
@@ -162,7 +162,7 @@ namespace c17
     apply_perm(*mesh, ms, mesh_perm);
     Subset sub = gen_subset(t, ms);
     Cfg cfg = gen_cfg(t, Index(sub.cells.size()), true); cfg.mesh_perm = mesh_perm;
-    int kind = t.pick({ 4, 2, 2, 2, 1, 3, 2, 2, 3 });
+    int kind = t.pick({ 4, 2, 2, 2, 1, 3, 2, 2, 3, 3 });
     int reps = 1 + t.pick({ 3, 1 });
     std::vector<Sched> scheds; for(int r = 0; r < reps; ++r) scheds.push_back(gen_sched(t, ms.nc()));
     int cubdeg = 2 + t.pick({ 2, 1 });
@@ -181,7 +181,7 @@ namespace c17
       auto dry = [&]() { DA<RTrafo> d(trafo); d.set_threading_strategy(cfg.strat); d.set_max_worker_threads(cfg.maxw); apply_subset(d, *mesh, sub); return d.get_num_worker_threads(); };
       nw_pred = dry();
       if(nw_pred == 1 && !sub.cells.empty()) { c.label("kf:one-worker"); if(c.excl("c17-one-worker")) { cfg.maxw = 0; steered.add("one-worker"); nw_pred = dry(); } }
-      if(resolve() == ThreadingStrategy::colored && nw_pred >= 2 && kind >= 5 && kind <= 7)
+      if(resolve() == ThreadingStrategy::colored && nw_pred >= 2 && ((kind >= 5 && kind <= 7) || kind == 9))
       { c.label("kf:colored-noscatter"); if(c.excl("c17-colored-noscatter")) { kind = 8; steered.add("colored-noscatter"); } }
     }
 
@@ -242,6 +242,41 @@ namespace c17
       break;
     case 7:
       run_integral_kind(e, [&] { return Assembly::ErrorFunctionIntegralJob<RFunc, RVec, RQ2, 1>(e.func, e.v2, q2, e.cub); }, "error integral");
+      break;
+    case 9:
+      {
+        // vector field (blocked coefficient vector): every worker's partial integrals are merged by Task::combine ->
+        // FunctionIntegralInfo::push; the component-wise norms must be accumulated like the totals
+        typedef LAFEM::DenseVectorBlocked<double, Index, 2> RVecB; RVecB vb(q1.get_num_dofs());
+        for(Index i = 0; i < vb.size(); ++i) { Tiny::Vector<double, 2> q; q[0] = e.v1(i); q[1] = 0.5 - 0.75 * e.v1(i) + 0.125 * double(i % 7); vb(i, q); }
+        typedef Assembly::DiscreteFunctionIntegralJob<RVecB, RQ1, 1> JobB;
+        JobB js(vb, q1, e.cub);
+        { DA<RTrafo> ds(trafo); apply_subset(ds, *mesh, sub); for(int r = 0; r < reps; ++r) ds.assemble(js); }
+        auto attempt = [&]() -> std::string
+        {
+          try
+          {
+            JobB jt(vb, q1, e.cub); for(int r = 0; r < reps; ++r) assemble_threaded(e, jt, r);
+            const auto& a = jt.result(); const auto& b = js.result(); const char* who = "blocked discrete integral";
+            FieldCmp f{ double(e.reps) * double(e.sub.cells.size()) * double(e.npts) + double(e.nw) + 2.0, 12.0 * e.blocks * e.reps, who };
+            f.chk("norm_h0_sqr", a.norm_h0_sqr, b.norm_h0_sqr, std::max(a.norm_h0_sqr, b.norm_h0_sqr)); f.chk("norm_h1_sqr", a.norm_h1_sqr, b.norm_h1_sqr, std::max(a.norm_h1_sqr, b.norm_h1_sqr)); f.chk("norm_l1", a.norm_l1, b.norm_l1, std::max(a.norm_l1, b.norm_l1));
+            for(int i = 0; i < 2; ++i)
+            {
+              f.chk("value[i]", a.value[i], b.value[i], std::max(a.norm_l1, b.norm_l1));
+              f.chk("norm_h0_sqr_comp[i]", a.norm_h0_sqr_comp[i], b.norm_h0_sqr_comp[i], std::max(a.norm_h0_sqr, b.norm_h0_sqr));
+              f.chk("norm_h1_sqr_comp[i]", a.norm_h1_sqr_comp[i], b.norm_h1_sqr_comp[i], std::max(a.norm_h1_sqr, b.norm_h1_sqr));
+              f.chk("norm_l1_comp[i]", a.norm_l1_comp[i], b.norm_l1_comp[i], std::max(a.norm_l1, b.norm_l1));
+            }
+            // the component-wise squared norms add up to the totals (also in the serial run)
+            f.chk("sum of norm_h1_sqr_comp vs norm_h1_sqr (threaded)", a.norm_h1_sqr_comp[0] + a.norm_h1_sqr_comp[1], a.norm_h1_sqr, a.norm_h1_sqr);
+            f.chk("sum of norm_h1_sqr_comp vs norm_h1_sqr (serial)", b.norm_h1_sqr_comp[0] + b.norm_h1_sqr_comp[1], b.norm_h1_sqr, b.norm_h1_sqr);
+            f.chk("sum of norm_h0_sqr_comp vs norm_h0_sqr (threaded)", a.norm_h0_sqr_comp[0] + a.norm_h0_sqr_comp[1], a.norm_h0_sqr, a.norm_h0_sqr);
+          }
+          catch(vf::Fail& ff) { return ff.sym; }
+          return "";
+        };
+        confirm_in_child(attempt);
+      }
       break;
     default:
       {
